@@ -4,6 +4,12 @@ import json, os
 V = os.path.dirname(os.path.dirname(os.path.abspath(__file__)))
 TECH = 'bounded symbolic checking of the real code: clang-14 LLVM IR of the anchored functions -> C (engine/ir2c.py) -> CBMC 6.11 (SAT), witness twins, native replay against the g++ build'
 CLAIMED = {
+ 'C01': ('Kernel lemmas, each decided by CBMC over the C translation of the LLVM IR of the real functions: L1 ArrayStreamBuf::feed/ParserBase::feed re-bases exactly (concrete sizes 0..3+spare, all contents, any maxSize); L3 every cursor primitive stays inside the delivered bytes with its exact contract (all buffers <= 6, thorough 12); L5 BodyStep: for every body section of exactly 8 and 11 bytes (thorough: every n in 3..13) and every single cut (thorough: plus cut pairs) the segmented run equals the one-shot run (state, error code, body bytes, consumed count) and equals an RFC 7230 reference decoder on well-formed input, with no early completion, and for Content-Length every cl in 0..2^64-1; L6 ParserBase::parse dispatch. The request-/status-/header-line steps (L2) are in progress. Composition of the lemmas into the end-to-end statement is argued in DESIGN.md, not solver-checked.',
+         'Trusted: ir2c translation (validated natively against the g++ build on random inputs where a tv driver exists), models of std::string::_M_append/reserve, strtol, exception runtime; cursor contract stubs are themselves proven by the cursor kernel harnesses in the same run. Bounded sizes only.', '4 C01'),
+ 'C03': ('Parser-level memory safety and termination kernels: every StreamCursor primitive and match_* helper of stream.cc on every buffer of <= 6 (thorough 12) bytes held in an exact-size heap block at every cursor position: no out-of-bounds access, no overflow/shift UB, loops terminate (unwinding assertions), exact functional contract. Body-step kernels (C01) add: appends stay inside the delivered bytes, reserve() never exceeds the request budget, strtol scanners stay inside the buffer.',
+         'Trusted: ir2c, libc models (byte-exact scanners), CBMC. Server-level clauses (responses on the wire, other connections) are outside; header value parsers and line steps are in progress.', '4 C03'),
+ 'C04': ('(a) ParserBase::reset() from an ARBITRARY parser state (any step index, any 64-bit body/chunk counters, any small buffer) restores the fresh-parser state: one inductive step covering every history before a reset; (b) every Done/raise of the body step leaves the progress counters at their initial values (asserted in the C01 body lemmas for every body section of 8/11 bytes and every cut).',
+         'Trusted: as C01. Handler::onInput calling reset exactly once per finished message and Request::operator= are outside this check (planned).', '4 C04'),
  'C20': ('Base64 Encode/Decode kernels (src/common/base64.cc, real std::string/vector code inlined): for every byte string of each concrete length 0..6 (thorough 0..9) CBMC shows Decode(Encode(x))==x and Encode(x) equal to an RFC 4648 reference; for every NUL-terminated text of length 0..5 (thorough 0..8) Decode throws or returns <=3n/4 bytes with all accesses inside the exact-size text block.',
          'Trusted: ir2c translation (validated natively against the g++ build on random inputs every run), models of std::string::_M_construct/reserve/operator new, CBMC. Bounded lengths only; one query per concrete length.', '4 C20'),
 }
